@@ -62,6 +62,9 @@ class GMRFPiecewiseCoalescentBlockUpdatingOperator(MCMCOperator):
         return math.sqrt(self._scaler - 1)
 
     def set_adaptable_parameter(self, value: float) -> None:
+        # the adaptable parameter is sqrt(scaler - 1) >= 0: a negative update
+        # must not be squared into a larger (bolder) scaler
+        value = max(value, 0.0)
         self._scaler = 1 + value * value
 
     def propose_precision(self):
